@@ -412,10 +412,6 @@ Qed.
 
 (* ---------- the trace invariant ---------- *)
 
-(* every occurrence of b in the trace has a past that satisfies P *)
-Definition each_occ (b : event) (P : list event -> Prop) (tr : list event) : Prop :=
-  forall l1 l2, tr = l1 ++ b :: l2 -> P l2.
-
 Lemma each_occ_nil : forall b P, each_occ b P [].
 Proof. intros b P l1 l2 H. destruct l1; discriminate H. Qed.
 
@@ -641,3 +637,138 @@ Proof. induction sched as [|t l IH]; intros c HI; [exact HI|]. rewrite run_cons.
 
 Lemma inv_exec : forall sc sched, Inv sc (exec sc sched).
 Proof. intros. apply inv_run. split; [apply sinv_init | apply tinv_init]. Qed.
+
+
+(* ================= safety theorems ================= *)
+
+(* 1a. g.err is written at most once, the Once body is entered at most once, and the value of g.err is the error
+   returned by the worker function of the goroutine that entered it *)
+Theorem err_written_once : forall sc sched,
+  let s := fst (exec sc sched) in let tr := snd (exec sc sched) in
+  length (filter is_write tr) <= 1 /\ length (filter is_enter tr) <= 1 /\
+  (s_err s = None -> filter is_write tr = []) /\
+  (forall e, s_err s = Some e ->
+     exists j w, filter is_enter tr = [EvEnter j] /\ filter is_write tr = [EvWrite j e] /\
+                 In (EvRet j (Some e)) tr /\ nth_error sc j = Some w /\ w_res w = Some e).
+Proof.
+  intros sc sched s tr. destruct (inv_exec sc sched) as [I T]. fold s in I, T. fold tr in T.
+  pose proof (t_write sc s tr T) as W. pose proof (t_enter sc s tr T) as E.
+  repeat split.
+  - destruct (s_err s); [destruct W as (j & -> & _)|rewrite W]; simpl; lia.
+  - destruct (s_once s); [rewrite E|rewrite E|destruct E as (j & ->)]; simpl; lia.
+  - intros N. rewrite N in W. exact W.
+  - intros e N. rewrite N in W. destruct W as (j & W1 & W2 & W3).
+    destruct (i_results sc s I j _ W3) as (w & Hw & Hr). exists j, w. repeat split; auto.
+    apply (t_ret sc s tr T). exact W3.
+Qed.
+
+(* 1b. no data race on g.err: program order and the WaitGroup order every write before every read *)
+Theorem err_race_free : forall sc sched, let tr := snd (exec sc sched) in
+  (forall i e, never_before (EvDone i) (EvWrite i e) tr) /\
+  (forall i, i < length sc -> precedes (EvDone i) EvWaitPass tr) /\
+  (forall r, is_read r = true -> precedes EvWaitPass r tr) /\
+  (forall i e r, is_read r = true -> never_before r (EvWrite i e) tr).
+Proof.
+  intros sc sched tr. destruct (inv_exec sc sched) as [I T]. fold tr in T.
+  repeat split; [apply (o_write_done _ _ _ T) | apply (o_done_pass _ _ _ T) | apply (o_pass_read _ _ _ T) | apply (o_write_read _ _ _ T)].
+Qed.
+
+(* wg.Done never finds the counter at zero *)
+Theorem no_panic : forall sc sched i, s_g (fst (exec sc sched)) i <> GPanic.
+Proof. intros sc sched i. destruct (inv_exec sc sched) as [I _]. apply (i_nopanic _ _ I). Qed.
+
+(* ---------- the group context ---------- *)
+
+Lemma ctx_stable_step : forall sc c t k, s_ctx (fst c) = Some k -> s_ctx (fst (step sc c t)) = Some k.
+Proof.
+  intros sc [s tr] t k C. unfold step. simpl fst in *. destruct (act sc s t) as [[e s']|] eqn:A; [|exact C].
+  simpl. act_inv A; simpl; auto; try congruence; rewrite C; reflexivity.
+Qed.
+
+(* 2a. a cancelled context is never un-cancelled and keeps its cause *)
+Theorem ctx_stable : forall sc sched c k, s_ctx (fst c) = Some k -> s_ctx (fst (run sc c sched)) = Some k.
+Proof.
+  induction sched as [|t l IH]; intros c k C; [exact C|]. rewrite run_cons. apply IH. apply ctx_stable_step. exact C.
+Qed.
+
+(* every worker function returned nil, as seen after wg.Wait *)
+Lemma all_nil_of_passed : forall sc s, SInv sc s -> passed_wait (s_c s) = true -> s_err s = None ->
+  forall i w, nth_error sc i = Some w -> w_res w = None.
+Proof.
+  intros sc s I P N i w Hw.
+  assert (L : i < length sc) by (apply nth_error_Some; rewrite Hw; discriminate).
+  pose proof (sinv_passed_exit sc s I P i L) as X. destruct (s_g s i) eqn:G; try discriminate X.
+  destruct (i_results sc s I i r) as (w' & Hw' & Hr); [rewrite G; reflexivity|].
+  rewrite Hw in Hw'. inversion Hw'; subst w'. rewrite Hr. destruct r as [e|]; [exfalso|reflexivity].
+  destruct (s_once s) eqn:O.
+  - destruct (i_once_new sc s I O) as [_ Q]. specialize (Q i). rewrite G in Q. discriminate Q.
+  - pose proof (i_once_body sc s I i0 O) as B. pose proof (sinv_passed_quiet sc s I P i0) as [Q|Q];
+      destruct (s_g s i0); discriminate.
+  - destruct (i_once_done sc s I O) as [Q _]. contradiction.
+Qed.
+
+(* 2b. where a cancellation comes from (no spurious cancellation): the parent; or the goroutine that won the Once,
+   after its worker function returned that error; or Wait, after wg.Wait, when every worker function returned nil.
+   Conversely a cancellation of the parent always reaches the group context. *)
+Theorem ctx_cause : forall sc sched,
+  let s := fst (exec sc sched) in let tr := snd (exec sc sched) in
+  (In EvExt tr -> s_ctx s <> None) /\
+  forall k, s_ctx s = Some k ->
+  match k with
+  | CParent => In EvExt tr
+  | CErr e => s_err s = Some e /\
+              exists j w, filter is_enter tr = [EvEnter j] /\ In (EvRet j (Some e)) tr /\
+                          nth_error sc j = Some w /\ w_res w = Some e
+  | CNil => passed_wait (s_c s) = true /\ In EvWaitPass tr /\ forall i w, nth_error sc i = Some w -> w_res w = None
+  end.
+Proof.
+  intros sc sched s tr. destruct (inv_exec sc sched) as [I T]. fold s in I, T. fold tr in T.
+  split; [apply (t_ext _ _ _ T)|]. intros k C. pose proof (i_cause sc s I) as K. rewrite C in K. destruct k.
+  - split; [exact K|]. pose proof (t_write sc s tr T) as W. rewrite K in W. destruct W as (j & W1 & W2 & W3).
+    destruct (i_results sc s I j _ W3) as (w & Hw & Hr). exists j, w. repeat split; auto. apply (t_ret sc s tr T). exact W3.
+  - destruct K as [P N]. split; [exact P|]. split; [apply (t_pass sc s tr T); exact P|].
+    apply (all_nil_of_passed sc s I P N).
+  - apply (t_parent sc s tr T C).
+Qed.
+
+(* a group cancellation [EvCancel] is always by a goroutine whose own worker function had returned that error *)
+Theorem cancel_after_failure : forall sc sched i v l1 l2,
+  snd (exec sc sched) = l1 ++ EvCancel i v :: l2 -> exists e, v = Some e /\ In (EvRet i (Some e)) l2.
+Proof. intros sc sched i v l1 l2 E. destruct (inv_exec sc sched) as [_ T]. eapply (o_cancel _ _ _ T); eauto. Qed.
+
+(* ---------- Wait ---------- *)
+
+(* 3. Wait returns only after every goroutine ran wg.Done (hence after every worker function returned); nil iff
+   every worker function returned nil, otherwise the error of the winner of the Once; the context is then done *)
+Theorem wait_returns : forall sc sched r,
+  let s := fst (exec sc sched) in let tr := snd (exec sc sched) in
+  wait_result s = Some r ->
+  (forall i w, nth_error sc i = Some w -> s_g s i = GExit (w_res w) /\ In (EvDone i) tr /\ In (EvRet i (w_res w)) tr) /\
+  (forall i, i < length sc -> precedes (EvDone i) EvWaitPass tr) /\
+  (forall i, each_occ (EvDone i) (fun l => exists x, In (EvRet i x) l) tr) /\
+  (r = None <-> forall i w, nth_error sc i = Some w -> w_res w = None) /\
+  (forall e, r = Some e -> exists j w, filter is_enter tr = [EvEnter j] /\ nth_error sc j = Some w /\ w_res w = Some e) /\
+  s_ctx s <> None.
+Proof.
+  intros sc sched r s tr WR. destruct (inv_exec sc sched) as [I T]. fold s in I, T. fold tr in T.
+  unfold wait_result in WR. destruct (s_c s) eqn:C; try discriminate WR. inversion WR; subst r0. clear WR.
+  assert (P : passed_wait (s_c s) = true) by (rewrite C; reflexivity).
+  pose proof (i_ret sc s I) as R. rewrite C in R. destruct R as [Rc Re].
+  repeat split.
+  - assert (L : i < length sc) by (apply nth_error_Some; rewrite H; discriminate).
+    pose proof (sinv_passed_exit sc s I P i L) as X. destruct (s_g s i) eqn:G; try discriminate X.
+    destruct (i_results sc s I i r0) as (w' & Hw' & Hr); [rewrite G; reflexivity|]. congruence.
+  - apply (t_done sc s tr T). apply (sinv_passed_exit sc s I P). apply nth_error_Some. rewrite H. discriminate.
+  - assert (L : i < length sc) by (apply nth_error_Some; rewrite H; discriminate).
+    pose proof (sinv_passed_exit sc s I P i L) as X. destruct (s_g s i) eqn:G; try discriminate X.
+    destruct (i_results sc s I i r0) as (w' & Hw' & Hr); [rewrite G; reflexivity|].
+    apply (t_ret sc s tr T). rewrite G. simpl. congruence.
+  - apply (o_done_pass _ _ _ T).
+  - apply (o_ret_done _ _ _ T).
+  - intros N. apply (all_nil_of_passed sc s I P). congruence.
+  - intros A. destruct r as [e|]; [exfalso|reflexivity]. pose proof (t_write sc s tr T) as W. rewrite <- Re in W.
+    destruct W as (j & _ & _ & W3). destruct (i_results sc s I j _ W3) as (w & Hw & Hr). rewrite (A j w Hw) in Hr. discriminate.
+  - intros e N. pose proof (t_write sc s tr T) as W. rewrite <- Re, N in W.
+    destruct W as (j & _ & W2 & W3). destruct (i_results sc s I j _ W3) as (w & Hw & Hr). exists j, w. auto.
+  - exact Rc.
+Qed.
